@@ -76,11 +76,21 @@ def obligations(tier, seed):
             for nk in (19, 20, 21):
                 add(op=o, sv=sv, lens=tuple([0, 0] + [0] * nk + [1]), cvals={'1': [], str(2 + nk): [nk]})
             add(op=o, sv=sv, lens=(0, 9, 1, 33, 1), cvals={'2': [1], '4': [1]}, tail=2 if sv == R.BASE else 0, mode=1)
+            if sv == R.BASE:
+                # FindAndDelete in multisig: ALL signatures are removed from the script code before the first one is checked (seed C02-6 removed each one only when it was tried);
+                # the tail holds one or two one-byte pushes that may equal either signature
+                for tail in (2, 4):
+                    add(op=o, sv=sv, lens=(0, 1, 1, 1, 33, 33, 1), cvals={'3': [2], '6': [2]}, tail=tail)
+                add(op=o, sv=sv, lens=(0, 1, 1, 1, 33, 33, 33, 1), cvals={'3': [2], '7': [3]}, tail=2)
     # opcode position bookkeeping at the debugger level: every successful step advances opcode_pos by one; OP_CODESEPARATOR records its own position
     for sv in (R.BASE, R.WITNESS_V0, R.TAPSCRIPT):
         for o in (0x51, 0x00, 0x61, 0xab, 0x76, 0x63, 0x68, 0x02):
             for vf in ((0, None), (1, 0)):
                 obs.append(dict(kind='opos', name='opos/op%02x/sv%d/vf%d-%s' % (o, sv, vf[0], vf[1]), op=o, sv=sv, vf=vf))
+    # the same bookkeeping when the script is run to the end in one go (ContinueScript, the non-interactive path): OP_CODESEPARATOR as the SECOND operation
+    # executed must record position start+1 (seed C08-6: the run-to-completion loop did not advance the counter)
+    for sv in (R.WITNESS_V0, R.TAPSCRIPT):
+        for nb in (1, 2): obs.append(dict(kind='oposc', name='opos/continue/sv%d/codesep-after-%d-ops' % (sv, nb), sv=sv, nb=nb))
     for o in range(0xb0, 0x100): obs.append(dict(kind='validops', name='validops/op%02x' % o, op=o))
     for L in (1, 2, 3): obs.append(dict(kind='validops', name='validops/sym%d' % L, op=None, L=L))
     obs += sighashlib.obligations(tier)
@@ -96,6 +106,7 @@ def build(ob, V=None):
     if ob['tail'] >= 2: tail[0] = 0x01             # a one-byte push in the tail: may equal the signature push (FindAndDelete)
     if ob['tail'] == 1: tail[0] = 0x00             # OP_0 in the tail equals the push of an empty signature
     if ob['tail'] == 3: tail[2] = 0x61
+    if ob['tail'] == 4: tail[2] = 0x01             # two one-byte pushes
     script = [0x61, o] + tail
     flags = var('flags', 32); nop = var('nop', 32); weight = var('weight', 64); csep = var('csep', 32); opos = var('opos', 32)
     leaf = [var('leaf%d' % i, 8) for i in range(32)]
@@ -122,6 +133,7 @@ def key_fn(ob):
 def run(E, ob):
     if ob['kind'] in ('sighash', 'schnorr', 'checker'): return sighashlib.run(E, ob)
     if ob['kind'] == 'opos': return run_opos(E, ob)
+    if ob['kind'] == 'oposc': return run_oposc(E, ob)
     if ob['kind'] == 'validops': return run_validops(E, ob)
     req, S, inputs, assume = build(ob)
     out, fin = sesslib.engine_call(E, req, assume=assume)
@@ -164,6 +176,23 @@ def run_opos(E, ob):
     res = sesslib.diff_paths(E, ob['name'], [f for f in fin], lambda f: (lambda o: o if o['ok'] else dict(ok='*', opos='*', csep='*'))(io(f)), ref2, assume, inputs,
                              lambda a, b: 'C02:opcode_pos:%s' % ('codesep' if ob['op'] == 0xab else 'advance'))
     return res
+
+def oposc_req(ob, V=None):
+    def var(n, bits): return z3.BitVec(n, bits) if V is None else V.get(n, 0)
+    opos = var('opos', 32); csep = var('csep', 32); flags = var('flags', 32)
+    script = [0x61] + [0x61] * ob['nb'] + [0xab, 0x51]
+    pre = dict(alt=[], vf=(0, None), nop=0, pc=1, pbch=0, opcode_pos=opos, codesep=csep, weight=0, curr_op_seq=1, hist=[])
+    return sesslib.sess_request(3, flags, ob['sv'], [], script, 0, 0, (0, 0, 0), pre), dict(opos=opos, csep=csep, flags=flags), ([z3.ULT(opos, 1 << 20)] if V is None else [])
+
+def run_oposc(E, ob):
+    req, inputs, assume = oposc_req(ob)
+    out, fin = sesslib.engine_call(E, req, assume=assume)
+    def io(f):
+        rep = sesslib.engine_reply(E, f, out, 3)
+        if rep['threw'] or not rep['ret']: return dict(ok='*', csep='*')          # runs refused for other reasons (flags) are not this obligation's subject
+        return dict(ok=1, csep=rep['post']['codesep'])
+    def ref(ctx): return dict(ok=1, csep=z3.simplify(inputs['opos'] + ob['nb']))
+    return sesslib.diff_paths(E, ob['name'], fin, io, ref, assume, inputs, lambda a, b: 'C02:opcode_pos:codesep-continue')
 
 # ---- HasValidOps domain
 def run_validops(E, ob):
@@ -208,6 +237,12 @@ def replay(lib, ob, cex):
         p = rep['post']; want = (V['opos'] + 1) & 0xffffffff
         wantc = V['opos'] if (ob['op'] == 0xab and ob['vf'][1] is None) else V['csep']
         return (p['opcode_pos'] != want or p['codesep'] != wantc), 'native: opcode_pos %d -> %d (expected %d), codeseparator pos %d (expected %d)' % (V['opos'], p['opcode_pos'], want, p['codesep'], wantc)
+    if ob['kind'] == 'oposc':
+        req, inputs, _ = oposc_req(ob, V)
+        rep = sesslib.native_call(lib, req, 3)
+        if not rep['ret']: return False, 'native run failed'
+        want = (V['opos'] + ob['nb']) & 0xffffffff
+        return rep['post']['codesep'] != want, 'native ContinueScript: code separator position %d recorded, expected %d (start %d, %d operations before it)' % (rep['post']['codesep'], want, V['opos'], ob['nb'])
     req, S, inputs, _ = build(ob, V)
     # oracle table: evaluate the counterexample's oracle applications
     rep = sesslib.native_call(lib, req, ob['mode'], oracle=cex.get('_oracle', []))
